@@ -513,8 +513,10 @@ def replay_job(job, lane=0):
     rlog = os.path.join(LOGS, job.prop, h["name"] + ".replay.log")
     crate = replay_scratch("_%d" % lane)
     cmd = kani_cmd(h, "%s%d" % (SLOT_PREFIX, lane), None, playback=True)
+    # the playback run uses Kani's regular mode: kani-driver keeps CBMC's whole JSON trace in
+    # memory, so it gets three times the harness's cap (at least 24 GB) and twice the time
     shell = "ulimit -s unlimited 2>/dev/null; ulimit -v %d; exec timeout -k 15 %d %s" % (
-        h["mem"] * 1024 * 1024, h["timeout"], " ".join(map(shquote, cmd)))
+        max(h["mem"] * 3, 24) * 1024 * 1024, h["timeout"] * 2, " ".join(map(shquote, cmd)))
     with open(rlog, "w") as lf:
         subprocess.run(["bash", "-c", shell], cwd=crate, env=env(), stdout=lf, stderr=subprocess.STDOUT)
     test = extract_playback_test(open(rlog, errors="replace").read())
